@@ -387,5 +387,8 @@ def transfer_col_references(table, ref_source):
         | {uid: ref_source._cache.name_to_uuid[name] for uid, name in table._cache.uuid_to_name.items()},
     )
     new._cache = table._cache.update(new._ast)
+    # The result carries the column identities of `ref_source`, so it counts as derived
+    # from it (e.g. it cannot be joined with `ref_source` without an `alias`).
+    new._cache.derived_from = new._cache.derived_from | ref_source._cache.derived_from
 
     return new
